@@ -139,6 +139,7 @@ omit [StarRing K] in
 theorem sumTo_div {k : Nat} (f : Nat → K) (c : K) : sumTo k (fun i => f i / c) = sumTo k f / c := by
   simp only [sumTo_eq_sum, div_eq_mul_inv, Finset.sum_mul]
 
+omit [StarRing K] in
 theorem composeMat_renorm (rank : Nat) (U : Nat → Nat → K) (s : Nat → K) (V : Nat → Nat → K) (N : K)
     (r c : Nat) : composeMat rank U (renorm N s) V r c = composeMat rank U s V r c / N := by
   simp only [composeMat, renorm]
